@@ -47,6 +47,53 @@ def variants(p, lm):
     return pa
 
 
+def readers_alive_together(p, expect):
+    """one reader per option value, all constructed before any is read: the option belongs to the reader instance"""
+    from pyrtcm import RTCMReader
+
+    f = framing.build_frame(p)
+    opts = [1, 2, 0, True, 2, 1]
+    readers = [RTCMReader(io.BytesIO(f + f), labelmsm=lm, quitonerror=2, validate=k % 2) for k, lm in enumerate(opts)]
+    for lm, rdr in zip(opts, readers):
+        got = list(rdr)
+        if len(got) != 2:
+            raise Fail("reader-lost-frame", f"reader with labelmsm={lm!r} returned {len(got)} results for two frames")
+        for _, c in got:
+            if pub(c) != expect[lm]:
+                raise Fail("option-not-bound-to-reader-instance", f"labelmsm={lm!r}: a reader constructed alongside readers with other options decodes differently from RTCMMessage(payload, labelmsm={lm!r})")
+
+
+def concurrently(p, expect):
+    """the two options parsed at the same time in threads"""
+    import sys
+    import threading
+
+    from pyrtcm import RTCMMessage
+
+    errs = []
+    old = sys.getswitchinterval()
+    sys.setswitchinterval(1e-6)
+    try:
+        def work(lm):
+            try:
+                for _ in range(6):
+                    if pub(RTCMMessage(payload=p, labelmsm=lm)) != expect[lm]:
+                        errs.append(lm)
+                        return
+            except Exception as e:  # pylint: disable=broad-except
+                errs.append((lm, type(e).__name__))
+
+        ts = [threading.Thread(target=work, args=(lm,)) for lm in (1, 2, 1, 2)]
+        for t in ts:
+            t.start()
+        for t in ts:
+            t.join(60)
+    finally:
+        sys.setswitchinterval(old)
+    if errs:
+        raise Fail("option-result-depends-on-concurrent-parse", f"parsing with labelmsm=1 and labelmsm=2 in threads: {errs[:3]}")
+
+
 def o_msm(case):
     ident = case["ident"]
     p = bytes.fromhex(case["payload"])
@@ -60,6 +107,9 @@ def o_msm(case):
         for (k, v1), (_, v) in zip(r1, r):
             if v1 != v and not k.startswith("CELLSIG_"):
                 raise Fail("option-changes-other-attribute", f"{ident}: {k} is {v1!r} with labelmsm=1 and {v!r} with labelmsm={name}")
+    readers_alive_together(p, {1: r1, 2: r2, 0: r0, True: rt})
+    if case.get("threads"):
+        concurrently(p, {1: r1, 2: r2})
     sats, sigs, cells = ref_masks(p)
     for lm, r in ((1, r1), (2, r2)):
         d = dict(r)
@@ -77,7 +127,7 @@ def o_msm(case):
 def plan_msm(tier, shard, nshards):
     ids = pins.msm_ids()[shard::nshards]
     n = 60 if tier == "quick" else 1000
-    return [(i, gen.messages(i, "small"), n) for i in ids]
+    return [(i, st.builds(lambda c, t: {**c, "threads": t}, gen.messages(i, "small"), st.integers(0, 5).map(lambda k: k == 0)), n) for i in ids]
 
 
 def o_other(case):
